@@ -99,10 +99,6 @@ def classify_shape(ln, out):
 # ----------------------------------------------------------------------------------------------
 # search: C16_default as an executable statement on the implementation (python, from the recipe)
 
-def wrap16(x):
-    return (x + 32768) % 65536 - 32768
-
-
 def fb_semantics(fmt, pairs):
     """what ttf-parser returns for a subtable written by tools/fontbuild.py (format 4 there is delta-only)"""
     d = dict(pairs)
@@ -149,7 +145,7 @@ def py_font(rec, sem=None):
         return g
 
     def hadv(g): return metric(rec["hadv"], g) if rec["hadv"] is not None else rec["upem"]
-    def vadv(g): return -(metric(rec["vadv"], g)) if rec["vadv"] is not None else -wrap16(rec["asc"] - rec["desc"])
+    def vadv(g): return -(metric(rec["vadv"], g)) if rec["vadv"] is not None else -(rec["asc"] - rec["desc"])
     def vorg(g):
         if rec["vorg"] is None: return rec["asc"]
         d, recs = rec["vorg"]; return recs.get(g, d)
